@@ -5,9 +5,11 @@ from vlib.runner import Failure
 from checks.c04 import setup
 
 PID = "C14"
-LEAN_MODULE = "NunVerif.Props.C14Burst"
+LEAN_MODULE = "NunVerif.Props.C14BurstData"
 THEOREMS = ["Nun.C14_secondary_never_fans_out", "Nun.C14_fanout_bounded", "Nun.C14_ack_is_silent", "Nun.replStep_sends",
-            "Nun.C14_write_burst", "Nun.loop_copies_are_the_envelope", "Nun.secondary_envelope_is_quiet", "Nun.replStep_of_envelope", "Nun.primary_set_emits"]
+            "Nun.C14_write_burst", "Nun.loop_copies_are_the_envelope", "Nun.secondary_envelope_is_quiet", "Nun.replStep_of_envelope", "Nun.primary_set_emits",
+            "Nun.C14_remove_burst", "Nun.secondary_remove_envelope_is_quiet", "Nun.replStep_of_remove_envelope", "Nun.primary_remove_emits", "Nun.primary_remove_frame",
+            "Nun.C14_increment_burst", "Nun.secondary_inc_envelope_is_quiet", "Nun.replStep_of_inc_envelope", "Nun.primary_inc_emits", "Nun.primary_inc_frame"]
 
 # every client-visible command (arguments chosen so that most are accepted)
 COMMANDS = ["set a 1", "set a two words", "set-safe a 0 x", "set-safe a 9 y", "get a", "get-safe a", "remove a", "remove zz", "increment n", "increment n 3", "increment a",
